@@ -11,7 +11,7 @@ import gen_mdp
 
 INFO = {
     "level": "proof",
-    "coq_files": ["model/VI.v"],
+    "coq_files": ["model/VI.v", "model/LAOStar.v", "theory/LAOStarProper.v"],
     "trusted_base": [
         "model/VI.v c01_check is evaluated on Q (NumQ); theorems are on R; tied by paramcoq transfer (theory/VITransfer.v)",
         "generated parameters (gamma, probabilities, rewards) reach the model exactly and msdm as nearest doubles",
@@ -20,9 +20,11 @@ INFO = {
 }
 
 PRE = """From Coq Require Import QArith List Bool.
-From MSDM Require Import base.Num base.NumInst model.MDP model.VI.
+From MSDM Require Import base.Num base.NumInst model.MDP model.VI model.LAOStar theory.LAOStarProper.
 Import ListNotations.
 Local Open Scope Q_scope.
+Definition chkP nS nA P R av ab ini g (W : list Q) :=
+  let m := mk_mdp nS nA P R av ab ini g in @c_proper Q NumQ m (masktab m) W.
 Definition chk nS nA P R av ab ini g V Qv Pi iv tl :=
   @c01_check Q NumQ (mk_mdp nS nA P R av ab ini g) (mk_out V Qv Pi iv) tl.
 Definition chkU nS nA P R av ab ini g V Qv Pi iv N :=
@@ -376,6 +378,18 @@ def undisc_certificate(case, res, out):
     return N
 
 
+def proper_weights(P, av, masked, g):
+    """W = 1 + the largest expected (discounted) number of steps before reaching a masked state over ALL policies, by
+    exact policy iteration on the step-counting MDP (theorems C01_proper_optimum_unique / C01_proper_values);
+    None when some policy never terminates on the unmasked part (gamma = 1, not proper for all policies)"""
+    n, nA = len(P), len(P[0])
+    ones = [[[F(1) if P[s][a][k] > 0 else F(0) for k in range(n)] for a in range(nA)] for s in range(n)]
+    u = exact_vstar(P, ones, av, masked, g)
+    if u is None or any(x < 0 for x in u):
+        return None
+    return [x + 1 for x in u]
+
+
 def search_failing(case, res, planner, out):
     """clause-by-clause evaluation of the property on the implementation output with the exact V*"""
     sl, al = res["state_list"], res["action_list"]
@@ -438,6 +452,7 @@ def run(ctx):
     impl = ctx.impl("c01_impl.py", {"cases": cases}, shards=8 if tier == "quick" else 16)["results"]
     terms, meta = [], []
     feats = {}
+    proper, nundisc_cases = {}, 0
     for i, (case, res) in enumerate(zip(cases, impl)):
         if "error" in res:
             ctx.violation("C01:impl-error:" + res["error"].split(":")[0], {"case": case, "error": res["error"]}, found=True)
@@ -454,6 +469,15 @@ def run(ctx):
                            "impl_unable": res["unable_vec"], "model_unable": m_unable,
                            "correspondence": "model/MDP.v:absorbing / unable_to_reach (exact comparisons) vs TabularMarkovDecisionProcess.absorbing_state_vec / _unable_to_reach_absorbing"},
                           found=False)
+        if F(case["mdp"]["gamma"]) == 1:
+            # MDP-level properness certificate for ALL policies (on the model's masks); skipped when not proper
+            nundisc_cases += 1
+            Wp = proper_weights(P_, av_, [a_ or u_ for a_, u_ in zip(m_abs, m_unable)], F(1))
+            if Wp is not None:
+                proper[i] = {"W": Wp, "Vs": exact_vstar(P_, R_, av_, [a_ or u_ for a_, u_ in zip(m_abs, m_unable)], F(1)),
+                             "unable": m_unable}
+                terms.append("chkP %s %s" % (mt, qlist(Wp)))
+                meta.append(("chkP", i, None))
         for planner in ("vi_vec", "vi_dict", "pi") + (("pi_batch",) if "pi_batch" in res["planners"] else ()):
             out = res["planners"][planner]
             if "error" in out:
@@ -483,6 +507,7 @@ def run(ctx):
                     out["initial_value"] = vlib.fjson(float(sum(ini_[k] * vlib.frac(out["V"][k]) for k in range(len(sl)))))
                 res["planners"][planner] = out
             tl, epsb = tol_term(case, planner, out)
+            out["_epsb"] = epsb
             Qv = coqlist(coqlist(qopt(x) for x in row) for row in out["Q"])
             badV = any(isinstance(v, str) for v in out["V"])
             if badV:
@@ -518,9 +543,21 @@ def run(ctx):
     vals = ctx.coq(PRE, terms, shard=12 if tier == "quick" else 40)
     nchk = nmir = drift = ambiguous = nund = npi1 = nocert = 0
     distinct = set()
+    chk_ok, certified = {}, set()
     for (kind, i, planner), v in zip(meta, vals):
         case, res = cases[i], impl[i]
+        if kind == "chkP":
+            if v is True:
+                certified.add(i)
+            else:
+                ctx.violation("C01:proper-certificate-rejects",
+                              {"case": case, "W": [str(x) for x in proper[i]["W"]], "coq": str(v)[:300],
+                               "correspondence": "theory/LAOStarProper.v:c_proper (theorems C01_proper_optimum_unique / C01_proper_values) rejects the harness' all-policies step weights"},
+                              found=False)
+            continue
         out = res["planners"][planner]
+        if kind == "chk" and not isinstance(v, vlib.CoqError):
+            chk_ok[(i, planner)] = all(v)
         if isinstance(v, vlib.CoqError):
             ctx.violation("C01:coq-evaluation-failed", {"case": case, "planner": planner, "error": str(v)[:800]}, found=False)
             continue
@@ -569,6 +606,27 @@ def run(ctx):
                 drift += 1   # covered by the certificate: drift-cleared unless the certificate also failed
             if its != out["iterations"]:
                 ambiguous += 1
+    # undiscounted, all policies proper (certified in Coq): reported values within epsb * W(s) of THE optimum
+    # (theorem C01_proper_values; needs the result to have passed c01_check with that epsb)
+    nproper_values = 0
+    for i in sorted(certified):
+        case, res, pc = cases[i], impl[i], proper[i]
+        if pc["Vs"] is None:
+            continue
+        for planner in ("vi_vec", "vi_dict"):
+            out = res["planners"].get(planner, {})
+            if "error" in out or not out.get("converged") or not chk_ok.get((i, planner)) or "_epsb" not in out:
+                continue
+            nproper_values += 1
+            for s_, v_ in enumerate(out["V"]):
+                vz = F(0) if pc["unable"][s_] else vlib.frac(v_)
+                if abs(vz - pc["Vs"][s_]) > out["_epsb"] * pc["W"][s_]:
+                    ctx.violation("C01:%s:undiscounted:value-outside-proper-bound" % planner,
+                                  {"case": case, "planner": planner, "state_index": s_, "reported": str(vz),
+                                   "optimal": str(pc["Vs"][s_]), "epsb": str(out["_epsb"]), "weight": str(pc["W"][s_]),
+                                   "failing_clause": "reported value farther than residual * (1 + largest expected number of steps) from the unique optimal undiscounted value (theorem C01_proper_values)"},
+                                  found=True)
+                    break
     # undiscounted: policy iteration against the bracket established for value iteration
     for i, (case, res) in enumerate(zip(cases, impl)):
         if "error" in res or F(case["mdp"]["gamma"]) != 1:
@@ -612,12 +670,14 @@ def run(ctx):
     for r in impl:
         for o in r.get("planners", {}).values():
             o.pop("_N", None)
+            o.pop("_epsb", None)
     ctx.coverage.update({
         "evaluations": nchk + nmir,
         "distinct_nontrivial": len(distinct),
         "rule": "MDPs from harness/gen_mdp.py (1..%d states, 1..3 actions, state-dependent action sets, k/8 probabilities, zero entries, duplicate rows for exact ties, explicit/implicit absorbing states, multi-state initial distributions, gamma in {1/2,3/4,7/8,9/10,19/20,1}); each run through vi_vec, vi_dict and PolicyIteration; distinct = structural hash of the MDP; non-trivial = at least one non-absorbing state (all generated cases)" % (5 if tier == "quick" else 7),
         "samples": [{"case": cases[0], "impl": impl[0]}] if cases else [],
         "certificate_checks": nchk, "undiscounted_certificates": nund, "undiscounted_without_N_certificate": nocert,
-        "undiscounted_pi_vs_vi_bracket": npi1, "mirror_runs": nmir, "mirror_drift": drift, "mirror_iteration_mismatch": ambiguous,
+        "undiscounted_pi_vs_vi_bracket": npi1, "undiscounted_cases": nundisc_cases,
+        "undiscounted_all_policies_proper_certified": len(certified), "undiscounted_proper_value_bounds_checked": nproper_values, "mirror_runs": nmir, "mirror_drift": drift, "mirror_iteration_mismatch": ambiguous,
         "input_features": feats, "cases": len(cases),
     })
